@@ -224,15 +224,25 @@ def phi_alternatives(e: ast.AST) -> List[ast.AST]:
     return [e]
 
 
+_PHI_COND_ALL: Dict[str, list] = {}
+
+
 def simplify_under(e: ast.AST, facts) -> ast.AST:
     """decide conditional expressions whose test (or its negation) is among the path facts of the statement."""
     fs = set(facts)
+
+    def holds(a) -> bool:
+        if a in fs:
+            return True
+        # `v is not None` on an optional carrier is recorded as the condition of the branch that bound it
+        c = _PHI_COND_ALL.get(a[1]) if a[0] == "isnot" and a[2] == "None" else None
+        return bool(c) and all(f in fs for f in c)
 
     class _S(ast.NodeTransformer):
         def visit_IfExp(self, n):
             self.generic_visit(n)
             pos, neg = atoms_of(n.test, True), atoms_of(n.test, False)
-            if pos and all(a in fs for a in pos):
+            if pos and all(holds(a) for a in pos):
                 return n.body
             if neg and all(a in fs for a in neg):
                 return n.orelse
@@ -528,6 +538,7 @@ class FuncFacts:
                 na, nb = isinstance(a_, ast.Constant) and a_.value is None, isinstance(b_, ast.Constant) and b_.value is None
                 if na != nb and isinstance(mv, ast.Call) and isinstance(mv.func, ast.Name) and mv.func.id == PHI:
                     self.__dict__.setdefault("phi_cond", {})[unparse(mv)] = list(neg if na else pos)
+                    _PHI_COND_ALL[unparse(mv)] = list(neg if na else pos)
             common = [f for f in r1[1] if f in r2[1]]
             return merged, common
         if isinstance(stmt, (ast.For, ast.While)):
@@ -614,8 +625,20 @@ class FuncFacts:
             if isinstance(stmt, ast.FunctionDef) and not stmt.decorator_list and not stmt.args.vararg and not stmt.args.kwarg and not stmt.args.kwonlyargs \
                     and not stmt.args.defaults:
                 b = [x for x in stmt.body if not (isinstance(x, ast.Expr) and isinstance(x.value, ast.Constant))]
-                if len(b) == 1 and isinstance(b[0], ast.Return) and b[0].value is not None:
-                    lam = ast.Lambda(args=copy.deepcopy(stmt.args), body=copy.deepcopy(b[0].value))
+
+                def as_expr(block):
+                    # `return e`, or `if c: return a  else: return b` (nested) as the conditional expression it is
+                    blk = [x for x in block if not (isinstance(x, ast.Expr) and isinstance(x.value, ast.Constant))]
+                    if len(blk) == 1 and isinstance(blk[0], ast.Return) and blk[0].value is not None:
+                        return copy.deepcopy(blk[0].value)
+                    if len(blk) == 1 and isinstance(blk[0], ast.If) and blk[0].orelse:
+                        a_, b_ = as_expr(blk[0].body), as_expr(blk[0].orelse)
+                        if a_ is not None and b_ is not None:
+                            return ast.IfExp(test=copy.deepcopy(blk[0].test), body=a_, orelse=b_)
+                    return None
+                body_expr = as_expr(b)
+                if body_expr is not None:
+                    lam = ast.Lambda(args=copy.deepcopy(stmt.args), body=body_expr)
                     # capture-avoiding: the parameters get fresh names before the free names of the body are resolved (an outer
                     # `iterate` substituted into the body must not be captured by a parameter that is also called `iterate`)
                     ren = {}
